@@ -350,6 +350,14 @@ inductive Reach (maxTTL t0 period : Int) : CState → Prop where
   | step {s s' : CState} (l : Label) : Reach maxTTL t0 period s → cstep s l = some s' →
       Reach maxTTL t0 period s'
 
+/-- The callers' history inside a run: the labels that are operations of the sequential
+reference (`Reset`/`Cleanup` are not atomic here and do not appear). -/
+def projOp : Label → Option Op
+  | .set k v ttl => some (.set k v ttl)
+  | .delete k => some (.delete k)
+  | .advance d => some (.advance d)
+  | _ => none
+
 /-- The coarse "snapshot" step of cleaner `id`: read the clock, visit every stored key, seal. -/
 def snapLabels (s : CState) (id : Nat) : List Label :=
   [.cNow id] ++ ((mkeys s.m).eraseDups.map (fun k => Label.cVisit id k)) ++ [.cSeal id]
